@@ -35,7 +35,7 @@ Fixpoint dedup (l : list N) (acc : list N) : list N :=
 Definition run_case (c : case) : bool * list N :=
   match c with
   | Hist managed detect nkeep nlevels next ops =>
-      let '(bad, _) := exec (init_sys managed detect nkeep (N.to_nat nlevels) next) ops 0 in
+      let '(bad, _) := exec_strict (init_sys managed detect nkeep (N.to_nat nlevels) next) ops 0 in
       match bad with
       | None => (true, dedup (flat_map op_tags ops) [])
       | Some (i, code) => (false, [1000 + i; 100000 + code])
